@@ -95,3 +95,29 @@ Example C17_qtt_example :
   | Err _ => False
   end.
 Proof. vm_compute. split; reflexivity. Qed.
+
+(* ------------------------------------------------------------------------------------------------------------
+   The factorisation oracle instantiated with the MODEL of teneva.matrix_svd (Model/Svd.v, property C02), at the
+   reals, with e = 0: when nothing can be cut (non-empty matrix, cap above min(m, n)) matrix_svd IS an exact
+   factorisation (for every symmetric-eigendecomposition / argsort routine meeting their contracts), so the
+   conversion theorem holds with matrix_svd itself on those calls ([msvd_total] = matrix_svd under that guard,
+   the trivial factorisation A = A Id elsewhere). *)
+From Coq Require Import Reals.
+From TV Require Import Model.Svd Proofs.StabRP Proofs.TruncP Proofs.TruncP4 Proofs.TruncP5 Proofs.TruncFacP.
+
+Theorem C17_matrix_svd_exact_e0 : forall (eigh : nat -> mat R -> list R * mat R) (argsort : nat -> list R -> list nat),
+  (forall k C, msym C -> eigh_ok C (fst (eigh k C)) (snd (eigh k C))) ->
+  (forall k l, argsort_ok l (argsort k l)) ->
+  forall k (A : mat R) rcap, 1 <= mr A -> 1 <= mc A -> (Z.of_nat (Nat.min (mr A) (mc A)) < rcap)%Z ->
+  fac_ok OR A (fst (matrix_svd OR eigh argsort k A 0%R rcap)) (snd (matrix_svd OR eigh argsort k A 0%R rcap)).
+Proof. intros eigh argsort HE HA. exact (matrix_svd_exact eigh argsort HE HA). Qed.
+
+Theorem C17_tt_to_qtt_denote_matrix_svd :
+  forall (eigh : nat -> nat -> mat R -> list R * mat R) (argsort : nat -> nat -> list R -> list nat) (rcap : Z),
+  (forall k c C, msym C -> eigh_ok C (fst (eigh k c C)) (snd (eigh k c C))) ->
+  (forall k c l, argsort_ok l (argsort k c l)) ->
+  forall q (Y : list (core R)) idx, chain 1 Y 1 -> Forall (fun G => cn G = 2 ^ S q /\ 0 < cr1 G) Y ->
+  length idx = length Y -> Forall (fun i => i < 2 ^ S q) idx ->
+  exists Z, tt_to_qtt OR (fun k => msvd_total (eigh k) (argsort k) rcap) Y = Ok Z /\ length Z = length Y * S q /\
+    chain 1 Z 1 /\ Forall (fun Q => cn Q = 2) Z /\ get OR Z (flat_map (bits_le (S q)) idx) = get OR Y idx.
+Proof. exact tt_to_qtt_denote_svd. Qed.
